@@ -341,6 +341,7 @@ TypeOneDRule TasmanianSparseGrid::getRule() const{ return (base) ? base->getRule
 const char* TasmanianSparseGrid::getCustomRuleDescription() const{ return (isGlobal()) ? get<GridGlobal>()->getCustomRuleDescription() : ""; }
 
 void TasmanianSparseGrid::getLoadedPoints(double *x) const{
+    if (base->getNumLoaded() == 0) return; // e.g., zero outputs: the points are not "loaded" and the vector overload passes an empty array
     base->getLoadedPoints(x);
     formTransformedPoints(base->getNumLoaded(), x);
 }
